@@ -166,6 +166,65 @@ def run(repo: Repo, chk: Check) -> None:
     shift_packing(repo, chk)
     per_streamer_freshness(repo, chk)
     bypass_bits(repo, chk)
+    rescale_source(repo, chk)
+
+
+# --------------------------------------------------------------------------- which kernel.rescale the gemmx registers are taken from
+def rescale_source(repo: Repo, chk: Check) -> None:
+    chk.rule(
+        "C08.rescale-source",
+        "the kernel.rescale whose parameters fill the gemmx rescale registers is the one that produces the region's output: it is found from the "
+        "region's yield (the op in front of it / the owner of the yielded value) or by a scan over all ops of the body - not at a fixed distance "
+        "behind the matmul, which misses the rescale of a fused matmul -> add -> rescale region and silently programs the no-rescale defaults",
+        floor=1,
+    )
+    f, fl = flow_of(repo, chk, GEMMX, "SNAXGEMMXAccelerator._generate_setup_vals")
+    op = f.param(1)
+    seen: dict[str, Site] = {}
+    for s in fl.sites:
+        if not s.reachable:
+            continue
+        for fa in s.facts:
+            if fa.kind != "atom":
+                continue
+            m = norm.any_match(["isinstance($r, kernel.RescaleOp)", "isinstance($r, RescaleOp)"], fa.expr)
+            if m is not None:
+                seen.setdefault(ast.unparse(m["r"]), s)
+    if not seen:
+        raise AnalysisError(f"{f.where}: no test for kernel.RescaleOp found")
+    for n_, (rtxt, s) in enumerate(sorted(seen.items()), 1):
+        r = ast.parse(rtxt, mode="eval").body
+        m = norm.any_match(["$g.body.block.first_op", "$g.body.block.ops.first", "$g.body.blocks[0].first_op", "$g.body.block.ops[0]"], r)
+        g = m["g"] if m is not None else None
+        # the loop variable forms: the generic (or the kernel op) ranges over the ops of the region
+        loopvars = {}
+        for l in s.loops:
+            if isinstance(l, ast.For) and isinstance(l.target, ast.Name):
+                loopvars[l.target.id] = s.expand(l.iter)
+        verdict = None
+        root = g if g is not None else r
+        if isinstance(root, ast.Name) and root.id in loopvars:
+            it = loopvars[root.id]
+            if norm.any_match(["$o.body.block.ops", "$o.body.ops", "$o.body.walk()", "$o.walk()", "reversed($o.body.block.ops)", "$o.body.block.walk()"], it, {"o": op}) is not None:
+                verdict = (True, f"every op of the region is inspected ({ast.unparse(it)})")
+        elif g is not None:
+            if norm.any_match(["$o.body.block.last_op.prev_op", "$o.body.block.ops.last.prev_op", "$o.body.block.last_op.arguments[$i].owner",
+                               "$o.body.block.last_op.arguments[$i].op", "$o.body.block.last_op.operands[$i].owner", "$o.body.block.last_op.operands[$i].op"], g, {"o": op}) is not None:
+                verdict = (True, f"the generic is found from the region's yield ({ast.unparse(g)})")
+            else:
+                hops = 0
+                cur = g
+                while isinstance(cur, ast.Attribute) and cur.attr == "next_op":
+                    hops += 1
+                    cur = cur.value
+                if not hops and norm.any_match(["$o.body.block.first_op", "$o.body.block.ops.first"], cur, {"o": op}) is not None:
+                    verdict = (True, "the region's own (first) kernel is a rescale: stand-alone rescale region")
+                elif hops and norm.any_match(["$o.body.block.first_op", "$o.body.block.ops.first"], cur, {"o": op}) is not None:
+                    verdict = (False, f"the rescale is looked up {hops} op(s) behind the first generic ({ast.unparse(g)}): in a fused matmul -> add -> rescale region that is the add, "
+                                      "so the rescale registers silently get the no-rescale defaults")
+        if verdict is None:
+            raise AnalysisError(f"{s.where()}: how the rescale op `{rtxt}` is located in the region is not recognised")
+        chk.result(verdict[0], "C08.rescale-source", f"{f.key}:rescale#{n_}", s.where(), verdict[1], verdict[1])
 
 
 # --------------------------------------------------------------------------- per-streamer quantities are computed per streamer
